@@ -72,7 +72,9 @@ def g_ref(x):
 
 DEF_FORMS = ["src-def", "src-deco1", "src-deco2", "src-decoml",
              "obj-def", "obj-deco1", "obj-deco2", "obj-decoml", "obj-defcells"]
-LAM_FORMS = ["src-lambda", "src-assign", "src-call", "obj-assign", "obj-call"]
+LAM_FORMS = ["src-lambda", "src-assign", "src-call", "obj-assign", "obj-call", "obj-pair"]
+# obj-pair: the lambda object is the SECOND lambda on its source line (modelx refuses it explicitly; capturing
+# the wrong lambda instead would be a violation)
 FORMS = DEF_FORMS + LAM_FORMS
 NAMES = ["auto", "other"]         # auto: cells named after the function; other: cells 'c' from 'def f'/lambda
 PARAMS = ["p1", "p0", "p2", "pa"]
@@ -186,7 +188,8 @@ def build(case):
             lam_lines = ["%s (g(%s) +" % (head, X), "        r%s)" % Y]
         canon = "\n".join(lam_lines)
         pre, post = {"src-lambda": ("", ""), "src-assign": ("f = ", ""), "src-call": ("ident(", ", 3)"),
-                     "obj-assign": ("f = ", ""), "obj-call": ("f = ident(", ", 3)")}[form]
+                     "obj-assign": ("f = ", ""), "obj-call": ("f = ident(", ", 3)"),
+                     "obj-pair": ("other, f = lambda z, zz=5: z - 1000, ", "")}[form]
         lines = list(lam_lines)
         lines[0] = pre + lines[0]
         lines[-1] = lines[-1] + post
@@ -495,7 +498,7 @@ def check_text(case, tmpdir, docs, only=None):
             # the one form modelx declares unsupported: a lambda OBJECT whose source line holds a
             # second lambda (inspect cannot tell them apart).  Anything else is a failed capture.
             if str(e) == EXPLICIT_REJECTION and T["via"] == "obj" and T["kind"] == "lambda" \
-                    and case["body"] == "nlambda":
+                    and (case["body"] == "nlambda" or case["form"] == "obj-pair"):
                 return "unsupported", [], None, 0
             bad("capture", "capture-raises[%s]:ValueError" % fam, "ValueError: " + str(e)[:120], "a cells")
             return "checked", viols, digest(["capture-raises", "ValueError"]), 0
